@@ -252,7 +252,7 @@ def f2_probe(run):
 def run(run):
     shard, nshards = run.shard
     rng = rng_for(run.seed, "c02", shard)
-    nfam = 360 if run.tier == "quick" else 2000
+    nfam = 300 if run.tier == "quick" else 1800
     profile = {"allow_regex_nokeep_single": False, "p_move": 0.2, "p_backward_at": 0.3, "allow_raw_callbacks": False, "p_describe": 0.08}
     if run.tier == "thorough":
         profile["max_depth"] = 4
@@ -265,8 +265,13 @@ def run(run):
     sel_profile = dict(profile, kinds={"int": 30, "data": 18, "bits": 6, "ref": 10, "sel": 30, "em": 2}, p_share_table=0.6, p_rep=0.2, p_opt=0.12)
     import itertools
     with monitors.fragments_monitor() as mon:
+        # third population: positioned layouts (fields placed high first, runs placed back, fields flush against and between others)
+        pos_profile = dict(profile, p_backrun=0.4, p_move=0.55, p_backward_at=0.5, max_fields=5, max_depth=2, p_rep=0.06, p_opt=0.04,
+                           moves={"at": 7, "shift": 3, "aligned": 1}, kinds={"int": 55, "data": 35, "bits": 4, "ref": 5, "sel": 0, "em": 1},
+                           int_widths=[1, 1, 2, 2, 3, 4])
         for bench in itertools.chain(driver.families(run, rng, profile, VARIANTS, nfam, instrument=(), tag="c02"),
-                                     driver.families(run, rng, sel_profile, VARIANTS, nfam // 3, instrument=(), tag="c02s")):
+                                     driver.families(run, rng, sel_profile, VARIANTS, nfam // 3, instrument=(), tag="c02s"),
+                                     driver.families(run, rng, pos_profile, VARIANTS, nfam // 3, instrument=(), tag="c02p")):
             fam = bench.fam
             if any("share" in f for d in fam["decls"].values() for f in d["fields"]):
                 run.count("families_with_a_shared_options_table")
